@@ -132,6 +132,7 @@ func (h *H) runTxn(p *Program) {
 	expectShared := cur.W.Clone() // C23: fold of acknowledged deltas, never re-synchronised
 	merges, conflicts, acked := 0, 0, 0
 	violate := func(key, what string) { rep.Violate(prop+":"+key, what, p) }
+	modelOff := false
 
 	for idx, o := range p.Ops {
 		s := so[o.S]
@@ -169,11 +170,11 @@ func (h *H) runTxn(p *Program) {
 			}
 		}
 		implLine := fmt.Sprintf("%s %s W=%s S=%s H=%s", class, rowsWire, cur.W.Dump(), cur.S.Dump(), cur.Hd.Dump())
-		if h.m != nil {
+		if h.m != nil && !modelOff {
 			ml := h.ask(o.Wire())
 			if ml != implLine {
 				rep.Disagree(p, implLine, ml, fmt.Sprintf("stmt %d: %s", idx, o.Wire()))
-				return
+				modelOff = true // the property oracle below keeps running on the implementation
 			}
 		}
 
